@@ -14,6 +14,8 @@ the stated ranges, np.round is element-wise, np.any is the existential; dia_arra
 """
 from __future__ import annotations
 
+import ast
+
 import z3
 
 from pyvc import frontend
@@ -67,6 +69,13 @@ def unit_is_diagonal(kind, timeout_ms=20000):
             def flat_of(s, k):
                 return k
 
+            def m_binop(s, e, op, other, reflected):
+                # np.abs(view) > atol: the element-wise threshold test (the other accepted form is np.round(view, decimals of atol))
+                if getattr(s, "absd", False) and isinstance(op, ast.Gt) and not reflected:
+                    log["threshold"] = other
+                    return Dense(s.rows, s.cols, s.flat, s.lo_col, rounded=True)
+                return NotImplemented
+
             def m_getitem(s, e, key):
                 if s.one_d is not None:
                     if isinstance(key, SSlice) and key.lo is None and key.step is None and isinstance(key.hi, int) and key.hi < 0:
@@ -85,6 +94,13 @@ def unit_is_diagonal(kind, timeout_ms=20000):
         def np_round(e, x, decimals=0):
             log["decimals"] = decimals
             return Dense(x.rows, x.cols, x.flat, x.lo_col, rounded=True)
+
+        def np_abs(e, x):
+            if not isinstance(x, Dense) or x.one_d is not None:
+                raise Unsupported("np.abs of something else")
+            r = Dense(x.rows, x.cols, x.flat, x.lo_col)
+            r.absd = True
+            return r
 
         def np_any(e, x):
             if not (isinstance(x, Dense) and x.rounded and x.one_d is None):
@@ -126,7 +142,7 @@ def unit_is_diagonal(kind, timeout_ms=20000):
                 raise Unsupported(name)
         arg = {"zero": ZERO, "masked": MASKED, "sympy": SymM(), "dense": A0, "sparse": Sp(), "other": Val("something", ("list",))}[kind]
         eng.globals.update({"zero": ZERO, "one": ONE,
-                            "np": Namespace("np", {"ma": Namespace("ma", {"masked": MASKED}), "ndarray": TypeObj("ndarray"), "round": Builtin("round", np_round), "any": Builtin("any", np_any),
+                            "np": Namespace("np", {"ma": Namespace("ma", {"masked": MASKED}), "ndarray": TypeObj("ndarray"), "round": Builtin("round", np_round), "abs": Builtin("abs", np_abs), "any": Builtin("any", np_any),
                                                    "log10": Builtin("log10", lambda e, x: T("log10", x))}),
                             "sympy": Namespace("sympy", {"MatrixBase": TypeObj("MatrixBase")}),
                             "sparse": Namespace("sparse", {"issparse": Builtin("issparse", lambda e, x: isinstance(x, Sp)), "dia_array": Builtin("dia_array", lambda e, x: Dia())}),
@@ -152,7 +168,8 @@ def unit_is_diagonal(kind, timeout_ms=20000):
         if not ok:
             return
         d = log.get("decimals")
-        eng.oblige("dense:rounded-at-the-decimals-of-atol", z3.BoolVal(repr(d) == repr(T("int", T("USub", T("log10", ATOL))))), detail=repr(d))
+        eng.oblige("dense:entries-compared-with-atol", z3.BoolVal(log.get("threshold") is ATOL or repr(d) == repr(T("int", T("USub", T("log10", ATOL))))),
+                   detail=f"|entry| > atol (threshold {log.get('threshold')!r}) or rounding at the decimals of atol ({d!r})")
         rows, cols, lo = v.rows, v.cols, v.lo_col
 
         def in_view(t, u):
